@@ -192,14 +192,32 @@ func c16Retire(c *Ctx) {
 			"the path-probing loop must be reachable without passing the `RetirePriorTo > highestRetired` edge")
 	}
 	// (b) queue entries below Retire Prior To
-	sb := edgeSuccs(add, Rel{Op: token.LSS, X: entrySeq, Y: Load(rpt)})
+	// (evaluated over add and the private helpers called only from it)
+	nEdges := 0
+	for _, g := range c.region(add) {
+		g := g
+		sb := edgeSuccs(g, Rel{Op: token.LSS, X: entrySeq, Y: Load(rpt)})
+		nEdges += len(sb)
+		if len(sb) == 0 {
+			continue
+		}
+		suffix := ""
+		if g != add {
+			suffix = "@" + g.Name()
+		}
+		c.cut(R, "pair:entry below Retire Prior To ⇒ RETIRE_CONNECTION_ID(entry)"+suffix, &Cut{Fn: g, StartBlocks: sb, Target: OrIP(isReturn, StoresTo(queue), isDelPP), Barrier: retireWith(entrySeq)},
+			"every entry dropped because of Retire Prior To is reported before anything else happens")
+	}
 	// the pathProbing loop has the same comparison; both lead to retire calls
-	c.Floor(R, "entry.SequenceNumber < RetirePriorTo edges", len(sb), 2)
-	c.cut(R, "pair:entry below Retire Prior To ⇒ RETIRE_CONNECTION_ID(entry)", &Cut{Fn: add, StartBlocks: sb, Target: OrIP(isReturn, StoresTo(queue), isDelPP), Barrier: retireWith(entrySeq)},
-		"every entry dropped because of Retire Prior To is reported before anything else happens")
+	c.Floor(R, "entry.SequenceNumber < RetirePriorTo edges", nEdges, 2)
 	// the rebuilt queue keeps only entries >= RetirePriorTo: append to the new queue only on that edge
 	nAppend := 0
-	eachInstr(add, func(i ssa.Instruction) {
+	eachRegionInstr := func(_ *ssa.Function, fn func(ssa.Instruction)) {
+		for _, g := range c.region(add) {
+			eachInstr(g, fn)
+		}
+	}
+	eachRegionInstr(add, func(i ssa.Instruction) {
 		cl, ok := i.(*ssa.Call)
 		if !ok || builtinName(&cl.Call) != "append" {
 			return
@@ -211,7 +229,7 @@ func c16Retire(c *Ctx) {
 			return
 		}
 		nAppend++
-		c.cut(R, "guard:kept entries are >= Retire Prior To", &Cut{Fn: add, Target: func(x ssa.Instruction) bool { return x == i },
+		c.cut(R, "guard:kept entries are >= Retire Prior To", &Cut{Fn: i.Parent(), Target: func(x ssa.Instruction) bool { return x == i },
 			Edge: EdgeRel(Rel{Op: token.GEQ, X: entrySeq, Y: Load(rpt)}, false)}, "only entries at or above Retire Prior To stay queued")
 	})
 	c.Floor(R, "appends to the rebuilt queue", nAppend, 1)
@@ -451,8 +469,20 @@ func c16Limit(c *Ctx) {
 	maxActive := c.konst("internal/protocol", "MaxActiveConnectionIDs")
 	limErr := c.konst("internal/qerr", "ConnectionIDLimitError")
 	pv := c.konst("internal/qerr", "ProtocolViolation")
+	// the limit is the advertised one (accessor connectionIDLimit: stored limit, or MaxActiveConnectionIDs by default)
+	limitFn := c.fn("", M, "connectionIDLimit")
+	hasDefault := false
+	eachInstr(limitFn, func(in ssa.Instruction) {
+		if r, ok := in.(*ssa.Return); ok && ConstOf(maxActive)(retResults(r)[0]) {
+			hasDefault = true
+		}
+	})
+	c.Check(hasDefault, R, "shape:connectionIDLimit defaults to MaxActiveConnectionIDs", c.P.Pos(limitFn.Pos()), "without an advertised limit the default applies")
+	isLimit := func(v ssa.Value) bool {
+		return ConstOf(maxActive)(v) || CallTo(c.obj("", M, "connectionIDLimit"), -1)(v)
+	}
 	c.cut(R, "guard:too many stored IDs → CONNECTION_ID_LIMIT_ERROR", &Cut{Fn: add, Target: ReturnsMaybeNilErr(0),
-		Edge: EdgeRel(Rel{Op: token.LSS, X: LenOf(Load(queue)), Y: ConstOf(maxActive)}, false)}, "success requires len(queue) < MaxActiveConnectionIDs")
+		Edge: EdgeRel(Rel{Op: token.LSS, X: LenOf(Load(queue)), Y: isLimit}, false)}, "success requires len(queue) < the advertised active_connection_id_limit")
 	c.Floor(R, "CONNECTION_ID_LIMIT_ERROR exits", countInstr(add, ReturnsErrCode(limErr)), 1)
 	ad := c.fn("", M, "add")
 	actCID := c.fld("", M, "activeConnectionID")
